@@ -487,6 +487,27 @@ def neutral_prefix(prefix, cls):
     return prefix.replace('/escape=true', '/escape=any').replace('/escape=false', '/escape=any')
 
 
+def keys_collide_after_replacement(spec):
+    """some map has two distinct keys that are equal once every code point that is not an XML character is
+    replaced by U+FFFD"""
+    def ok(cp):
+        return cp in (9, 10, 13) or 0x20 <= cp <= 0xD7FF or 0xE000 <= cp <= 0xFFFD or 0x10000 <= cp <= 0x10FFFF
+
+    def walk(v):
+        if not isinstance(v, list) or not v:
+            return False
+        if v[0] == 'm':
+            keys = [k for k, _ in v[1]]
+            rep = [''.join(ch if ok(ord(ch)) else '\ufffd' for ch in k) for k in keys]
+            if len(set(rep)) < len(set(keys)):
+                return True
+            return any(walk(x) for _, x in v[1])
+        if v[0] == 'a':
+            return any(walk(x) for x in v[1])
+        return False
+    return walk(spec)
+
+
 def keys_collide_after_unescaping(spec):
     """some map of the value has two distinct keys that become equal when backslash sequences inside the key
     TEXT are (wrongly) interpreted once more, e.g. 'é' and the six characters '\\u00e9'"""
@@ -542,6 +563,11 @@ def run_isolated(spec, problems, pipeline, out, prefix, group=None):
     if not emitted:
         for sym, c, detail in problems:
             cls = grouped(c.split('+')[0], group) if c else 'unclassified'
+            if c is None and 'FOJS0006' in sym and keys_collide_after_replacement(spec):
+                # two keys that differ only in characters XML cannot hold both become U+FFFD (escape=false is
+                # lossy by design): the duplicate is a consequence of the input, not a defect
+                out.dim('undecided', 'keys-collide-after-U+FFFD-replacement')
+                continue
             if c is None and 'FOJS0006' in sym and keys_collide_after_unescaping(spec):
                 # two distinct keys, one of them with a literal backslash: only their combination fails
                 cls = 'keys-differing-by-an-escaped-backslash-taken-for-duplicates'
